@@ -99,7 +99,18 @@ def c02(idx: Index, rep: Report, tier: str) -> None:
         rep.ok(rule_b, "_get_applicable_actions keeps no cache", ga.loc(), function=ga.qualname)
     for s in stores:
         v = s.ast.value
-        complete = any(isinstance(c, ast.Call) and call_name(c) == "get_grounded_actions" for c in ast.walk(v)) and isinstance(v, ast.Call) and call_name(v) in ("list", "tuple")
+        def materialised(e):
+            return isinstance(e, ast.Call) and call_name(e) in ("list", "tuple") and any(isinstance(c, ast.Call) and call_name(c) == "get_grounded_actions" for c in ast.walk(e))
+
+        complete = materialised(v)
+        if not complete and isinstance(v, ast.Name):
+            # through a local: every definition of it that reaches the store is the materialised output (or the cache itself)
+            from ..dataflow import reaching_defs
+
+            defs = reaching_defs(gcfg)[s].get(v.id, set())
+            vals = [getattr(d.ast, "value", None) for d in defs]
+            mutated = any(isinstance(c, ast.Call) and isinstance(c.func, ast.Attribute) and norm(c.func.value) == v.id and c.func.attr in ("append", "extend", "insert", "pop", "remove", "clear") for c in walk_no_nested(ga.node))
+            complete = bool(defs) and not mutated and all(materialised(x) for x in vals if not (x is not None and norm(x) == "self._grounded_actions")) and any(materialised(x) for x in vals)
         rep.check(complete, rule_b, "the grounded-action cache is assigned the materialised output of the grounder in one statement", ga.loc(s.ast), construct=norm(s.ast)[:110], detail="" if complete else "the cache is created empty/partial and completed while results are being yielded: a caller that abandons the first iteration leaves a truncated cache, and every later get_applicable_actions omits applicable actions", function=ga.qualname)
     # a generator must not mutate simulator fields between yields
     for m in idx.cls(SIM).methods.values():
